@@ -203,7 +203,7 @@ structure Analysis where
   rs : Nat → List Nat
 
 def analyse (V : List Nat) (E : EL) (r : Nat) : Analysis :=
-  let U := univE V E
+  let U := dedup (univE V E)
   let R := reachE V E r
   let avTab := mkTab (reachAvoid V E r) U
   let rsTab := mkTab (reachE V E) U
